@@ -71,6 +71,8 @@ type caseRun struct {
 	topo     bool
 	hadClient map[[2]int]bool
 	hadChan   map[int]bool
+	frames    int  // message frames recorded in this case
+	flood     bool // the daemon keeps sending: the case is cut short and judged as it stands
 }
 
 func tname(t int) string {
